@@ -172,6 +172,26 @@ check(
     'DESIGN 3 (C19)',
 )
 
+check(
+    'C08',
+    'simmpi',
+    'exploration',
+    'The real controller_MPI (1-5 time ranks), the node-parallel sweepers generic_implicit_MPI/imex_1st_order_MPI with base_transfer_MPI '
+    '(2-4 node ranks, 2-D rank grid via Split), and the MPI flavours of BasicRestarting, SpreadStepSizesBlockwise, CheckConvergence, Adaptivity '
+    'and the embedded error estimator run unmodified on a simulated mpi4py: ranks are threads of which exactly one runs, a seeded scheduler '
+    '(uniform, PCT priorities, starve-one, run-ahead, round-robin) decides the interleaving at every MPI call, completion timing of every '
+    'matched non-blocking operation, buffering of standard sends, early exits of bcast/Reduce, and scribbles pending receive buffers. Each run '
+    'is compared with its serial counterpart executed in the same process, attempt by attempt (times up to rounding, step sizes, iterations, '
+    'restart flags and counters, end values bitwise while times agree bitwise, returned and logged values), plus deadlock, unmatched/incomplete '
+    'messages, collective consistency, send-buffer integrity and termination.',
+    'The simulated MPI implements the weakest behaviour the standard allows as read from the standard; it is not validated against a real MPI '
+    '(none installable). Ranks share one interpreter. Iteration estimator (Ibcast/Cancel) excluded as the property says. Known findings F13 '
+    '(sliver step at Tend differs between flavours) and F14 (deadlock after a forced stop on a later rank) are reported as KNOWN-FINDING. '
+    'numpy\'s global RNG is pinned identically on every rank (finding F11).',
+    'deterministic simulation: real MPI controller/sweepers on an in-process simulated MPI with a seeded scheduler over interleavings and completion orders, differential check against the serial emulation',
+    'DESIGN 3 (C08), 2.3',
+)
+
 
 def build():
     claimed = sorted(CHECKS)
